@@ -59,7 +59,8 @@ bool HasInvalidIndex(const std::vector<Index>& indicies) noexcept {
 }
 
 bool IsRadical(const std::string& alias) {
-  return !empty(alias) && alias.at(0) == 'R' && alias.at(1) != '0';
+  // Note: every R<number> is a template parameter except the name reserved for the any type (R01 is not R0)
+  return size(alias) > 1 && alias.at(0) == 'R' && alias != Typification::anyTypificationName;
 }
 
 void MangleRadicals(const std::string& funcName, Typification& type) {
